@@ -37,7 +37,7 @@ class Path:
         return p
 
 
-def paths(flow, start=None, stop_ids=None, follow_assert_fail=False, max_paths=MAX_PATHS, stop_at_loops=False):
+def paths(flow, start=None, stop_ids=None, follow_assert_fail=False, max_paths=MAX_PATHS, stop_at_loops=False, havoc_loops=False):
     """All non-exceptional paths from ``start`` (default: entry) to an exit / ``stop_ids`` of a loop-free region."""
     cfg = flow.cfg
     start = start or cfg.entry
@@ -109,6 +109,33 @@ def paths(flow, start=None, stop_ids=None, follow_assert_fail=False, max_paths=M
                 q = p.copy()
                 q.outcome = p.outcome
                 q.decisions.append((t, k == "T", node))
+                rec(tgt, q, onpath)
+            return
+        if node.kind == "next" and havoc_loops and node is not start and isinstance(node.stmt, (ast.For, ast.AsyncFor, ast.While)):
+            # a loop inside the region is read as an opaque computation: every name it binds is unknown afterwards,
+            # and the region goes on where the loop is left (exhausted, or through one of its ``break``s)
+            lp = node.stmt
+            inner = set(id(x) for b_ in lp.body for x in ast.walk(b_))
+            if any(isinstance(x, (ast.Return, ast.Raise, ast.Yield, ast.YieldFrom, ast.Await)) for b_ in lp.body for x in ast.walk(b_)):
+                raise AnalysisError("region of %s contains a loop at line %s that returns, raises or suspends" % (flow.fi.qual, node.lineno))
+            bound = set(x.id for x in ast.walk(lp) if isinstance(x, ast.Name) and isinstance(x.ctx, (ast.Store, ast.Del)) and (id(x) in inner or any(x is y for y in ast.walk(lp.target)) if hasattr(lp, "target") else id(x) in inner))
+            for nm in bound:
+                p.env[nm] = ("unk", "loop@%s:%s" % (node.lineno, nm))
+            p.calls.append((("call", ("unk", "loop@%s" % node.lineno), (), (), ("site", node.lineno, 0)), node))
+            exits = [t for k, t in node.succ if k == "F"]
+            for x in cfg.nodes:
+                if x.kind == "break" and x.stmt is not None and id(x.stmt) in inner:
+                    # only the breaks of this loop (not of a loop nested in it)
+                    nested = any(isinstance(l2, (ast.For, ast.AsyncFor, ast.While)) and l2 is not lp and any(y is x.stmt for y in ast.walk(l2)) for l2 in ast.walk(lp))
+                    if not nested:
+                        exits += [t for k, t in x.succ if k not in ("exc",)]
+            seen_t = []
+            for tgt in exits:
+                if any(tgt is y for y in seen_t):
+                    continue
+                seen_t.append(tgt)
+                q = p.copy()
+                q.outcome = p.outcome
                 rec(tgt, q, onpath)
             return
         if node.kind == "next":
